@@ -147,7 +147,7 @@ func genItem(r *rand.Rand, markers []string) []tok {
 			t.Style = "dollar"
 		default:
 			t.Style = "dtag"
-			t.Tag = []string{"t", "tag1", "_x", "é", "T"}[r.IntN(5)]
+			t.Tag = []string{"t", "tag1", "_x", "é", "T", "a1", "_0", "q2w"}[r.IntN(8)]
 		}
 		genTokBody(r, &t, 4)
 		return []tok{t}
